@@ -385,7 +385,7 @@ def jobs(tier):
                        expect=("filled",), opts={"validate": 1}))
     for k in (1, 2, 3, 4):
         out.append(Job(f"distn-k{k}", "checks.c08:body_distn", {"k": k}, expect=("lemma",)))
-    for n, ub, m in ((3, 1, 2), (2, 1, 1), (3, 2, 2)) + (() if q else ((4, 1, 2),)):
+    for n, ub, m in ((3, 1, 2), (2, 1, 1), (3, 2, 2)) + (() if q else ((4, 1, 1),)):
         out.append(Job(f"kl-plotly-n{n}-ub{ub}-m{m}", "checks.c08:body_kl_and_plotly", {"n": n, "ub": ub, "m": m},
                        expect=("checked",) + (("zero-count-node", "leaf-empty-under-both-fills") if n > ub else ()),
                        opts={"validate": 1}))
